@@ -4,7 +4,7 @@ from common import SYNC_RW, RAFT_ENV  # noqa: F401
 CHECK = {'level': 'model_checking',
  'rule': 'T (transit backend): BFS (depth 1-3 quick / 2-5 thorough per key configuration, from 3/4 initial histories) over key-management '
          'histories {rotate, config min_decryption_version, config min_encryption_version, both, trim, backup, '
-         'restore(force|no force), deletion_allowed, delete+create} on the real transit backend for 19 key '
+         'restore(force|no force), deletion_allowed, delete+create; for two cached-policy configurations (plain and transactional storage) also a rotation during which the first or the second storage write fails once, never merged with the uninterrupted state} on the real transit backend for 21 key '
          'configurations (4 AEAD types x plain/derived/convergent, rsa-2048, ecdsa-p256, ed25519 plain/derived, hmac; '
          'cache on/off, transactional/plain storage), deduplicated by (window, flags, backup relation, versions in '
          'memory/policy/archive, record classes). In EVERY state: encrypt/sign/hmac for every key_version 0..latest+1 x '
